@@ -124,7 +124,8 @@ class ReachingDefs:
                     else:
                         k = target_key(t)
                         if k:
-                            out.append(Def(k, n.id, "weak-aug", st.value, stmt=st))
+                            # x op= v : a strong definition computed from the previous value and v
+                            out.append(Def(k, n.id, "aug", st.value, stmt=st))
                 elif isinstance(st, (ast.Import, ast.ImportFrom)):
                     for al in st.names:
                         out.append(Def((al.asname or al.name).split(".")[0], n.id, "import", None, stmt=st))
@@ -402,6 +403,12 @@ def derives(func_node, expr: ast.AST, at: Optional[int] = None, rd: Optional[Rea
             return
         if d.value is not None:
             visit(d.value, d.node, {})
+        if d.kind == "aug":
+            prev = rd.reaching(d.var, d.node)
+            if not prev:
+                (D.attrs if "." in d.var else D.free).add(d.var)
+            for pd in prev:
+                follow(pd)
         if d.kind == "weak-sub" and d.index:
             for ix in d.index:
                 visit(ix, d.node, {})
